@@ -223,7 +223,9 @@ class Adaptor(object):
         if kind == "features":
             return {"_text": tok(o.text)}
         if kind == "images":
-            return {"names": self.names_list(o.fileNames, sort=True)}
+            # `sched`: the names deleted since the last save (peek: no public API shows them)
+            return {"names": self.names_list(o.fileNames, sort=True),
+                    "sched": self.names_list(list(o._scheduledForDeletion.keys()), sort=True)}
         raise KeyError(kind)
 
     def keyed_store(self, kind, o, key):
@@ -323,7 +325,7 @@ class Adaptor(object):
                     same = o._scheduledForDeletion[name].get("digest") == _makeDigest(data)
                 elif name in o.fileNames:
                     same = hashlib.md5(o[name]).digest() == hashlib.md5(data).digest()
-                return [tok(name), 0, 1 if sched else 0, 1 if same else 0]
+                return [tok(name), 0, 1 if same else 0]
             return [tok(d["value"])]
         if op[0] == "delitem":
             return [tok(d["key"])]
@@ -603,3 +605,135 @@ def follow_after(self, op, st, status, details, events):
 
 Adaptor.follow_before = follow_before
 Adaptor.follow_after = follow_after
+
+
+# ---------------------------------------------------------------------------------------------------
+# M-OrderNotify: Font.GlyphOrderChanged on explicit and implicit updates of the glyph order
+# ---------------------------------------------------------------------------------------------------
+
+ORDER_POSTED = "Font.GlyphOrderChanged"
+
+
+def _optnames(v):
+    from sexp import opt
+    return opt(None if v is None else [str(x) for x in v])
+
+
+def _order_state(font):
+    """the font as M-GlyphOrder sees it: the stored order (None = key absent) and the glyph names of each layer"""
+    lib = font.lib.get("public.glyphOrder")
+    if lib is not None and not all(isinstance(x, str) for x in lib):
+        return None
+    layers = [[ln, sorted(font.layers[ln].keys())] for ln in font.layers.layerOrder]
+    return dict(lib=None if lib is None else list(lib), layers=layers)
+
+
+def order_before(self, op, details):
+    """the operation as M-GlyphOrder names it, and the font's state before it; None = not an operation of the model"""
+    if self.w.user_holds or op[0] not in ("set", "call", "delitem"):
+        return None
+    try:
+        font = self.w.font
+        k, tk = op[0], op[1][0]
+        tgt = details.get("target")
+        mop = None
+        if k == "set" and tk == "glyph" and op[2] == "name":
+            if tgt.layer is None or not isinstance(details["value"], str):
+                return None
+            mop = [Atom("rename"), tgt.layer.name, tgt.name, details["value"]]
+        elif k == "call" and tk == "layer" and op[2] in ("newGlyph", "insertGlyph"):
+            mop = [Atom(op[2]), tgt.name, details["name"]]
+        elif k == "call" and tk == "font" and op[2] == "newGlyph":
+            mop = [Atom("newGlyph"), font.layers.defaultLayer.name, op[3]]
+        elif k == "delitem" and tk == "layer":
+            mop = [Atom("delGlyph"), tgt.name, details["key"]]
+        elif k == "set" and tk == "font" and op[2] == "glyphOrder":
+            v = details["value"]
+            if v is not None and not all(isinstance(x, str) for x in v):
+                return None
+            mop = [Atom("setOrder"), _optnames(v)]
+        if mop is None:
+            return None
+        st = _order_state(font)
+        if st is None:
+            return None
+        st["op"] = mop
+        return st
+    except Exception:
+        return None
+
+
+def order_after(self, op, st, status, events):
+    """(model line, implementation output): the deliveries of Font.GlyphOrderChanged and the stored order afterwards"""
+    if st is None or status != "ok":
+        return None
+    try:
+        font = self.w.font
+        evs = []
+        for e in events:
+            if e.name == ORDER_POSTED and e.sender is font and not e.error and e.has_payload:
+                evs.append([_optnames(e.old), _optnames(e.new), _optnames(e.raw)])
+        post = _order_state(font)
+        if post is None:
+            return None
+        line = [Atom("order"), st["op"], _optnames(st["lib"]), st["layers"]]
+        return line, [evs, _optnames(post["lib"])]
+    except Exception:
+        return None
+
+
+# ---------------------------------------------------------------------------------------------------
+# M-Geom as C08 reads it: the direction of a contour before and after reverse() / clockwise = v
+# ---------------------------------------------------------------------------------------------------
+
+def _points(contour):
+    """the points of a contour made of move / line points with integer coordinates (where AreaPen's float arithmetic
+    is exact); None otherwise"""
+    from sexp import opt
+    pts = []
+    for p in contour:
+        if p.segmentType not in ("move", "line"):
+            return None
+        x, y = p.x, p.y
+        if x != int(x) or y != int(y):
+            return None
+        pts.append([int(x), int(y), Atom(p.segmentType), bool(p.smooth), opt(p.name), opt(p.identifier)])
+    return pts
+
+
+def winding_before(self, op, details):
+    if self.w.user_holds or len(op) < 3 or not isinstance(op[1], list) or op[1][0] != "contour":
+        return None
+    try:
+        c = details["target"]
+        if op[0] == "call" and op[2] == "reverse":
+            mop = Atom("reverse")
+        elif op[0] == "set" and op[2] == "clockwise":
+            mop = [Atom("set"), bool(details["value"])]
+        else:
+            return None
+        pts = _points(c)
+        if pts is None:
+            return None
+        return dict(op=mop, pts=pts, cw=bool(c.clockwise), zero=c.getRepresentation("defcon.contour.area") == 0)
+    except Exception:
+        return None
+
+
+def winding_after(self, op, st, status, details):
+    if st is None or status != "ok":
+        return None
+    try:
+        c = details["target"]
+        after = _points(c)
+        if after is None:
+            return None
+        return [Atom("winding"), st["op"], st["pts"]], [st["cw"], st["zero"], bool(c.clockwise), after]
+    except Exception:
+        return None
+
+
+Adaptor.order_before = order_before
+Adaptor.order_after = order_after
+Adaptor.winding_before = winding_before
+Adaptor.winding_after = winding_after
